@@ -55,6 +55,7 @@ def main():
             summary.append((sid, props, "patch-does-not-apply"))
             continue
         res = {}
+        saved = {p: (VERIF / "evidence" / f"{p}.json").read_bytes() for p in props if (VERIF / "evidence" / f"{p}.json").exists()}
         try:
             for p in props:
                 t = time.time()
@@ -71,6 +72,8 @@ def main():
                         pass
         finally:
             sh(["git", "-C", REPO, "checkout", "HEAD", "--", "."])
+            for p, b in saved.items():          # evidence files describe runs on the unchanged tree only
+                (VERIF / "evidence" / f"{p}.json").write_bytes(b)
         old = {}
         if (d / "result.json").exists():
             old = json.loads((d / "result.json").read_text())
@@ -79,7 +82,6 @@ def main():
         (d / "result.json").write_text(json.dumps(old, indent=1) + "\n")
         summary.append((sid, props, "DETECTED" if all(x["detected"] for x in res.values()) else "MISSED " + str({p: x["exit"] for p, x in res.items()})))
         print(f"{sid}: {summary[-1][2]}", flush=True)
-    # re-run the checks' evidence on the clean tree is the caller's job
     print("\n".join(f"{s} {p} {r}" for s, p, r in summary))
     return 0
 
